@@ -1,3 +1,4 @@
+import FsnVerif.Props.C08
 import FsnVerif.Props.C12
 import FsnVerif.Props.C02
 import FsnVerif.Proofs.CleanLemmas
@@ -132,6 +133,25 @@ theorem remove_after_end {l : Lib} (h : Reachable l) (env : Env) (p : Path) (hgo
   rcases Lib.remove_lib hi hn env p with ⟨_, h2, _⟩ | ⟨w, hw, hwp, _, _⟩
   · exact h2
   · have := (hi.bwd _ _ hw).2; rw [hwp, hgone] at this; cases this
+
+/-- **the path can be added again**: after the watch has ended, an `Add` of the same spelling that the kernel
+answers with a descriptor not in the table (a new one, or the old number again: it is no longer listed) stores a
+fresh watch under the cleaned argument — for every reachable state and every ending record -/
+theorem readd_after_end {l : Lib} (h : Reachable l) (env : Env) (r : Raw) (w : Watch)
+    (hw : alLookup r.wd l.wdT = some w) (hend : endsWatch r.mask = true)
+    (arg : Path) (harg : clean arg = w.path) (ops : BitVec 32) (nf : Bool) (wd' : Nat)
+    (hk : env.addWatch (clean arg) (inotifyRequest nf ops) = .ok wd')
+    (hfresh : alLookup wd' (l.handle env r).lib.wdT = none) :
+    alLookup wd' ((l.handle env r).lib.add env arg ops nf).1.wdT
+        = some ⟨wd', inotifyRequest nf ops, clean arg, false⟩ ∧
+      alLookup (clean arg) ((l.handle env r).lib.add env arg ops nf).1.pathT = some wd' := by
+  obtain ⟨_, hp⟩ := self_gone_ends_watch' h env r w hw hend
+  exact C08.stored_path_is_clean_arg _ env arg ops nf wd' hk (by rw [harg]; exact hp) hfresh
+
+/-- the old descriptor number itself is a legitimate answer: it is free again -/
+theorem readd_same_wd_is_fresh {l : Lib} (h : Reachable l) (env : Env) (r : Raw) (w : Watch)
+    (hw : alLookup r.wd l.wdT = some w) (hend : endsWatch r.mask = true) :
+    alLookup r.wd (l.handle env r).lib.wdT = none := (self_gone_ends_watch' h env r w hw hend).1
 
 /-- … and later records for the ended watch's wd say nothing and change nothing -/
 theorem silent_after_end (l : Lib) (env : Env) (r : Raw) (hgone : alLookup r.wd l.wdT = none) :
